@@ -344,9 +344,13 @@ func clearResetParts(c *Ctx, ruleID string, parts ...string) {
 }
 
 // sweepCursorRule: every value written to expirationMap.lastCleanedBucketNum (constructor, clear,
-// cleanup) is a cleanupBucket(...) number. The sweep takes the buckets (cursor, cleanupBucket(now)];
-// a cursor set from storageBucket(now) is one bucket ahead and the current storage bucket is
-// skipped: keys filed there after a Clear are never swept. Shared with C14.
+// cleanup) is a bucket number of the current time - cleanupBucket(time.Now()) or storageBucket(time.Now()).
+// The sweep takes the buckets (cursor, cleanupBucket(now)] and add/update never file behind the cursor
+// (R-C14-FRONTIER, finding F6), so a cursor at or one ahead of the sweep's upper bound only delays a
+// key by one bucket; a cursor that is not a function of the current time (a constant, a stale value,
+// a time in the future) postpones or forgets the reclamation of everything filed meanwhile. Before the
+// F6 repair the rule demanded cleanupBucket exactly (a cursor one ahead skipped a bucket for good);
+// with the filing clamp in place that variant no longer breaks the property and is accepted.
 func sweepCursorRule(c *Ctx, ruleID string) {
 	L, P := c.L, c.P
 	c.Group(ruleID, "expirationMap.lastCleanedBucketNum", func() {
@@ -363,12 +367,12 @@ func sweepCursorRule(c *Ctx, ruleID string) {
 			for _, st := range sts {
 				n++
 				vt := tb.T(st.Val)
-				if !Match("call[cleanupBucket](_)", vt, nil) {
-					L.Fail(ruleID, "cursor@"+fname(fn), "the sweep cursor is set to "+vt.String()+", not to a cleanupBucket(...) number: the writers of lastCleanedBucketNum must agree with the sweep's upper bound cleanupBucket(now), otherwise a bucket is skipped (never swept) or swept early", st.Pos())
+				if !Match("call[cleanupBucket](call[time.Now])", vt, nil) && !Match("call[storageBucket](call[time.Now])", vt, nil) {
+					L.Fail(ruleID, "cursor@"+fname(fn), "the sweep cursor is set to "+vt.String()+", not to the bucket number of the current time (cleanupBucket(time.Now()) / storageBucket(time.Now())): everything filed until the sweep reaches that cursor again is reclaimed late or never", st.Pos())
 				}
 			}
 		}
-		L.Check(n >= 3, ruleID, "expirationMap.lastCleanedBucketNum", fmt.Sprintf("%d writer(s), each a cleanupBucket(...) number", n), fmt.Sprintf("only %d writer(s) of the sweep cursor found (constructor, clear, cleanup expected)", n), 0)
+		L.Check(n >= 3, ruleID, "expirationMap.lastCleanedBucketNum", fmt.Sprintf("%d writer(s), each the bucket number of time.Now()", n), fmt.Sprintf("only %d writer(s) of the sweep cursor found (constructor, clear, cleanup expected)", n), 0)
 	})
 }
 
